@@ -26,11 +26,11 @@ PROPS = {
                 gen=parse_family('C01', 1500, 40000), flavours=['c'],
                 rule='random grammars (1-5 nonterminals, nullable/recursive/ambiguous/error shapes) x sampled sentences, prefixes, mutations, random strings; every input parsed at lookahead 0,1,2 with random one_parse/cost and recovery on/off; non-trivial = distinct case text with at least one judged parse',
                 assumptions=COMMON_ASSUME + ['accepts_iff_sentence is proved for the level-0/1 model and accepts2_iff_sentence for the level-2 model, for every grammar readGrammar accepts (Props/Accepted.lean); recovery-on runs of non-sentences are judged by the recovery model']),
-    'C02': dict(level='proof', theorem_modules=['C02', 'Accepted'], min_theorems=8, tags=['C02'], crash_counts=True,
+    'C02': dict(level='proof', theorem_modules=['C02', 'Accepted', 'MakeParse'], min_theorems=8, tags=['C02'], crash_counts=True,
                 gen=parse_family('C02', 1500, 40000), flavours=['c'],
                 rule='random grammars with random translations (permuted, partial, nil-padded, pass-through, empty); sentences <= 7 tokens; one_parse=1 cost=0; tree compared with the enumerated translations of all derivations',
                 assumptions=COMMON_ASSUME + ['enumeration capped at 3000 derivations per input and 9 tokens (depth_bound: the enumerator is complete for every accepted grammar)']),
-    'C03': dict(level='proof', theorem_modules=['C03', 'C02'], min_theorems=8, tags=['C03'], crash_counts=True,
+    'C03': dict(level='proof', theorem_modules=['C03', 'C02', 'MakeParse'], min_theorems=8, tags=['C03'], crash_counts=True,
                 gen=parse_family('C03', 1500, 40000), flavours=['c'],
                 rule='as C02 with one_parse=0: set of trees denoted by the DAG vs set of translations of all derivations',
                 assumptions=COMMON_ASSUME),
